@@ -263,10 +263,10 @@ pub fn run(g: &mut Global) {
     let _ = minimal_trait_instantiation();
     g.rule = "random: proptest (kind among all 22, periods to 300, bars with five independently drawn finite fields, or consistent bars, or one-price bars) plus unrelated noise values. Oracle: (1) next(&bar) = next(bar.close) for the close-only indicators, next(bar.low) for MIN, next(bar.high) for MAX, within 1e-12 relative; (2) one-price bars = scalar path for FAST_STOCH, SLOW_STOCH, TRUE_RANGE, ATR, and KC within 16 ulp of the price scale; (3) replacing every field the indicator is not documented to read (open always; volume except MFI/OBV; high/low for close-only ones) by unrelated values incl. +-1e300 leaves every output bit-identical; (4) ta::DataItem and the harness's own implementor carrying the same numbers give bit-identical outputs and DataItem's getters return the numbers it was built from. Non-trivial = noise values differ from every field of every bar and the stream is longer than the window; distinct by hash of (kind, parameters, bars).".into();
     g.assumptions = vec!["documented fields per indicator are those listed in the property (close; low for MIN; high for MAX; high/low/close for the bar indicators; + volume for MFI, close+volume for OBV)".into()];
-    g.random("random", g.tier.pick(100000, 8000000), &|| strategy(1000), &check);
+    g.random("random", g.tier.pick(300000, 8000000), &|| strategy(1000), &check);
     // resets of all twins at the same step (multiples of the period, during warm-up, anywhere) and identity
     // events (tele.rs) on the bar-fed twin: the bar path and the scalar path must stay together through them
-    g.random("events", g.tier.pick(40000, 1000000), &|| crate::tele::wrap_resets(strategy(400)), &|t: &crate::tele::TCase<Case>, ctx: &mut Ctx| crate::tele::check_wrapped(t, ctx, t.case.bars.len(), t.case.cfg.n(), check));
+    g.random("events", g.tier.pick(120000, 1000000), &|| crate::tele::wrap_resets(strategy(400)), &|t: &crate::tele::TCase<Case>, ctx: &mut Ctx| crate::tele::check_wrapped(t, ctx, t.case.bars.len(), t.case.cfg.n(), check));
     // long flat runs after a short active prefix: the bar path and the scalar path must still agree
     // when exponential averages decay to zero (periods 1..=3 get there within ~1100 bars)
     g.exhaustive(
